@@ -21,6 +21,8 @@ rule is kept as `Tx.allocAlertFromCtx` only to exhibit that collision.
 -/
 import RtcModel.Lemmas.DtlsHs
 import RtcModel.Lemmas.DtlsNonce
+import RtcModel.Lemmas.DtlsTerm
+import RtcModel.DtlsFlights
 
 namespace RtcModel.Theorems.C03
 open RtcModel.Generated RtcModel.DtlsRecord RtcModel.DtlsHs
@@ -209,11 +211,6 @@ theorem rejected_record_no_effect (A : DecFn) (C : Crypto) (L : Loc) (e : Ep) (b
         have : dropClear e r = false := by simp [dropClear, he]
         simp [this, ht, ok]
 
-/-- protected records (epoch ≠ 0) received before any keys exist are rejected -/
-theorem protected_without_keys_rejected (A : DecFn) (r : Rec) (he : r.epoch ≠ 0) :
-    tryDecrypt A none r = none := by
-  simp [tryDecrypt, he]
-
 /-- The nonce and the AAD bind every header field: two records (with the field ranges `decodeRec`
 guarantees) that are opened under the same (nonce, AAD) have the same type, version, epoch,
 sequence number and length, and the same explicit nonce.  So any change to the header of a genuine
@@ -286,17 +283,6 @@ theorem records_fit_and_concat (A : Aead) (k : DirKeys) (epoch : Nat) (d : Bytes
   · rw [hlen, hl]; simp only [dtlsRecordHeaderSize_val, dtlsSendExplicitNonceLen_val, dtlsSendTagLen_val]; omega
   · rw [hlen, hl]; omega
 
-/-- the record a sender emits for chunk number `i` of a `send` is the `i`-th chunk sealed under the
-`i`-th sequence number it drew -/
-theorem sendRecords_length (A : Aead) (k : DirKeys) (epoch : Nat) (ss : List Nat) (cs : List Bytes)
-    (h : ss.length = cs.length) : (sendRecords A k epoch ss cs).length = cs.length := by
-  induction ss generalizing cs with
-  | nil => cases cs <;> simp_all [sendRecords]
-  | cons s ss ih =>
-    cases cs with
-    | nil => simp at h
-    | cons c cs => simp [sendRecords, ih cs (by simpa using h)]
-
 /-- **send_nonce_unique**: sequence numbers come from one atomic counter, so for *every*
 interleaving `sched` of allocation steps of any number of sender threads (and the Finished record
 and the close alert, which draw from the same counter), no two records of the connection are sealed
@@ -362,43 +348,11 @@ theorem endpoint_nonce_unique (C : Crypto) (L : Loc) (isClient : Bool) (fp : Opt
   rw [← sealedOf_append] at h
   exact h.uniq
 
-/-- and application data only ever leaves sealed: every record `send` emits is marked sealed, carries
-at most `MAX_APP_DATA_RECORD_SIZE` plaintext bytes, and the chunks concatenate to the payload -/
-theorem send_emits_only_sealed (e : Ep) (d : Bytes) :
-    (∀ o ∈ (onSend e d).2, ∃ w, o = .send w ∧ w.sealed = true ∧ w.ctype = dtlsCtApplicationData ∧
-        w.plain.length ≤ dtlsMaxAppDataRecordSize) ∧
-    (e.conn = .connected → ((onSend e d).2.filterMap (fun o => match o with | .send w => some w.plain | _ => none)).flatten = d) := by
-  unfold onSend
-  split
-  · rename_i hc
-    dsimp only
-    constructor
-    · intro o ho
-      rw [List.mem_iff_getElem] at ho
-      obtain ⟨n, hn, rfl⟩ := ho
-      simp only [List.length_zipWith, List.length_range, Nat.min_self] at hn
-      refine ⟨⟨dtlsCtApplicationData, e.writeEpoch, e.writeSeq + n, true, (appChunks d)[n]⟩, by simp, rfl, rfl, ?_⟩
-      exact (chunks_bound _ (by decide) _ _ _ (List.getElem_mem hn)).1
-    · intro _
-      have key : ∀ (cs : List Bytes) (f : Nat → Nat), ((List.zipWith (fun i c => Out.send ⟨dtlsCtApplicationData, e.writeEpoch, f i, true, c⟩)
-          (List.range cs.length) cs).filterMap (fun o => match o with | .send w => some w.plain | _ => none)) = cs := by
-        intro cs
-        induction cs with
-        | nil => intro f; rfl
-        | cons c cs ih =>
-          intro f
-          simp only [List.length_cons, List.range_succ_eq_map, List.zipWith_cons_cons, List.filterMap_cons]
-          congr 1
-          rw [List.zipWith_map_left]
-          exact ih (fun i => f (i + 1))
-      rw [key (appChunks d) (fun i => e.writeSeq + i)]
-      exact chunks_flatten _ (by decide) _ _ (by omega)
-  · exact ⟨by simp, fun h => absurd h (by assumption)⟩
-
 /-- **send_nonce_unique at the moment of publication**: the run loop publishes `write_epoch`, then
 `write_seq`, then the state `Connected`; sender threads check the state, load the epoch, `fetch_add`
-the sequence number.  For *every* interleaving of these atomic steps, with any number of senders doing
-any number of sends, every record a sender seals carries the published epoch `E` and a sequence number
+the sequence number; once it has published, the run loop may also take a number for its close_notify alert
+(`fetch_add` on the same counter, `PAct.alert`).  For *every* interleaving of these atomic steps, with any
+number of senders doing any number of sends, every record so sealed carries the published epoch `E` and a sequence number
 ≥ `S` (the first one after the Finished record, which used `S - 1`), and no `(epoch, seq)` occurs
 twice. -/
 theorem publication_race_free (E S : Nat) (acts : List PAct) :
@@ -412,6 +366,71 @@ scheduled between the stores seal a record under `(epoch 1, seq 0)` — the Fini
 theorem publication_state_first_races :
     (1, 0) ∈ (PSys.run 1 1 { rest := pubOrderStateFirst } [.pub, .snd 0, .pub, .snd 0, .snd 0]).log := by
   decide
+
+/-- **a clear-text record leaves the whole endpoint untouched** once keys exist (not only the connection
+state): for an endpoint with keys, outside a cookie exchange (`post_hvr` false) and — for a server —
+with its random chosen, an epoch-0 record of *any* content type is either dropped before decryption
+(ApplicationData, Alert) or processed with the endpoint state — sequence counters, reassembly buffer,
+transcript, last flight, everything — exactly as before; at most the last flight is re-sent (duplicate
+ClientHello). -/
+theorem clear_text_record_whole_state_noop (C : Crypto) (L : Loc) (e : Ep) (r : Rec)
+    (hk : e.ctx.keys.isSome = true) (hp : e.ctx.postHvr = false) (hsr : e.ctx.serverRandom.isSome = true)
+    (h0 : r.epoch = 0) :
+    dropClear e r = true ∨
+    ((onRecord C L e r.ctype false r.body).ep = e ∧ (onRecord C L e r.ctype false r.body).err = false ∧
+      ∀ p, Out.deliver p ∉ (onRecord C L e r.ctype false r.body).out) := by
+  by_cases hd : dropClear e r = true
+  · exact Or.inl hd
+  · right
+    have hct : r.ctype ≠ dtlsCtApplicationData ∧ r.ctype ≠ dtlsCtAlert := by
+      simp only [dropClear, h0, hk] at hd
+      simp at hd
+      exact hd
+    unfold onRecord
+    split
+    · simp [ok]
+    · rw [if_neg hct.1]
+      split
+      · have h := procPayload_unauth_whole C L (r.body.length + 1) e r.body hk hp hsr
+        exact ⟨h.1, h.2, (procPayload_good C L false _ e r.body).2.2⟩
+      · rw [if_neg hct.2]; simp [ok]
+
+open RtcModel.DtlsFlights in
+/-- **on the wire, application data exists only as AEAD output**: every datagram `send` hands to the
+socket is `header ‖ explicit nonce ‖ A.enc key (iv ‖ explicit nonce) aad chunk` for a chunk of the
+payload — the plaintext enters the wire bytes through `A.enc` only, under the endpoint's write key, with
+the explicit nonce equal to the 64-bit epoch‖sequence value that is also in the header and the AAD. -/
+theorem send_wire_is_aead_output (A : Aead) (e : Ep) (k : Keys) (d : Bytes) (hk : e.ctx.keys = some k) :
+    ∀ dg ∈ datagrams A e (onSend e d).2, ∃ i c, c ∈ appChunks d ∧
+      dg = encodeRec ⟨dtlsCtApplicationData, dtls12Major.toUInt8, dtls12Minor.toUInt8, e.writeEpoch, e.writeSeq + i,
+        be64 (fullSeq e.writeEpoch (e.writeSeq + i)) ++
+          A.enc (writeKeys e.isClient k).key (mkNonce (writeKeys e.isClient k).iv (be64 (fullSeq e.writeEpoch (e.writeSeq + i))))
+            (mkAad (fullSeq e.writeEpoch (e.writeSeq + i)) dtlsCtApplicationData dtls12Major.toUInt8 dtls12Minor.toUInt8 c.length) c⟩ := by
+  intro dg hdg
+  unfold onSend at hdg
+  split at hdg
+  · simp only [datagrams, List.mem_filterMap] at hdg
+    obtain ⟨o, ho, hw⟩ := hdg
+    rw [List.mem_iff_getElem] at ho
+    obtain ⟨n, hn, rfl⟩ := ho
+    simp only [List.length_zipWith, List.length_range, Nat.min_self] at hn
+    simp only [List.getElem_zipWith, List.getElem_range, Option.some.injEq] at hw
+    refine ⟨n, (appChunks d)[n], List.getElem_mem hn, ?_⟩
+    rw [← hw]
+    simp [wireOf, hk, sealedRec, sealPayload]
+  · simp [datagrams] at hdg
+
+/-- **nonce (not only counter) uniqueness at the endpoint**: two different records an endpoint ever sealed,
+both with epoch < 2^16 and sequence number < 2^48 (the ranges of the header fields; beyond 2^48 the
+code's `(epoch << 48) | seq` would overlap), are sealed under different AEAD nonces `iv ‖ be64(epoch‖seq)`. -/
+theorem endpoint_wire_nonce_unique (C : Crypto) (L : Loc) (isClient : Bool) (fp : Option Bytes) (ops : List Op) (iv : Bytes) :
+    ∀ a ∈ sealedOf ((start L isClient fp).2 ++ (runOps C L (start L isClient fp).1 ops).2),
+    ∀ b ∈ sealedOf ((start L isClient fp).2 ++ (runOps C L (start L isClient fp).1 ops).2),
+      a.epoch < 2 ^ 16 → b.epoch < 2 ^ 16 → a.seq < 2 ^ 48 → b.seq < 2 ^ 48 → a ≠ b →
+      mkNonce iv (be64 (fullSeq a.epoch a.seq)) ≠ mkNonce iv (be64 (fullSeq b.epoch b.seq)) := by
+  intro a ha b hb h1 h2 h3 h4 hne heq
+  obtain ⟨he, hs⟩ := nonce_injective iv _ _ _ _ h1 h2 h3 h4 heq
+  exact hne (endpoint_nonce_unique C L isClient fp ops a ha b hb he hs)
 
 /-! ### non-vacuity -/
 
